@@ -3,7 +3,7 @@ import sympy as sp
 import z3
 
 _FUN = {"c_exp": sp.exp, "c_log": sp.log, "c_sqrt": sp.sqrt, "c_cos": sp.cos, "c_sin": sp.sin,
-        "c_cosh": sp.cosh, "c_sinh": sp.sinh, "c_fabs": sp.Abs, "c_tanh": sp.tanh}
+        "c_cosh": sp.cosh, "c_sinh": sp.sinh, "c_fabs": sp.Abs, "c_tanh": sp.tanh, "c_pow": lambda a, b: a ** b}
 
 
 def to_sympy(e, opaque_funs=True):
